@@ -262,7 +262,7 @@ func capturedClosure(h *ssa.Function, v ssa.Value) (g *ssa.MakeClosure, mch *ssa
 		}
 
 		st := SingleStore(al)
-		if st == nil {
+		if st == nil || st.Block() == nil || st.Block().Parent() != mch.Block().Parent() || !dominates(st.Block(), mch.Block()) {
 			return nil, nil
 		}
 
@@ -936,6 +936,8 @@ func (p *Program) inlineCall(f *ssa.Function, call *ssa.Call, body *ssa.Function
 	for i, blk := range f.Blocks {
 		blk.Index = i
 	}
+
+	delete(domCache, f)
 
 	return newLits
 }
